@@ -6,7 +6,7 @@ from pyvc.contracts import Any, Bool, Const, ExtSpec, ExtT, Int, ListOfT, LoopSp
 from pyvc.values import ExcV, FStr, Opaque, Opt, PartialV, Ref, U, fresh_name
 
 from .a_submit import EXTRA, UT
-from .a_tasks import calls, exts, flat, index_of, trivial_loop
+from .a_tasks import calls, exts, flat, index_of, trivial_loop, only_propagates
 from .spec import TWO53, b2z, implies, is_ceil_div
 
 B = z3.BoolVal
@@ -111,7 +111,7 @@ def register(R):
             len(calls(c.trace, '_ranged_download')) + len(calls(c.trace, 'S3Transfer._get_object')) == 1
             and (calls(c.trace, '_ranged_download') + calls(c.trace, 'S3Transfer._get_object'))[0].extra['env']['extra_args'] is c.a_extra_args), ['C15', 'C14']),
     }
-    cdf.raises = {'Exception': lambda c: {}}
+    cdf.raises = {'Exception': only_propagates}
 
     # ------------------------------------------------------------------ ranged download: extra args reach every GET
     R.add_fields(MPD, _client=ExtT('client'), _config=ObjT(LCFG), _os=ObjT(f'{L}:OSUtils'), _executor_cls=ExtT('legacy_executor_cls'),
@@ -169,7 +169,10 @@ def register(R):
         params=dict(bucket=ExtT('str'), key=ExtT('str'), filename=ExtT('str'), part_size=Int, num_parts=Int, callback=OptT(ExtT('legacy_cb')),
                     part_index=Int, extra_args=EXTRA),
         setup=range_setup, checks=range_checks,
-        raises={'Exception': lambda c: {}},
+        raises={'s3transfer.exceptions:RetriesExceededError': lambda c: {
+            'only_after_the_attempt_budget_is_used_up': (B(len([e for e in c.trace if e.kind == 'loop']) == 1), ['C03']),
+            **R.budget_clause(c, c.old.f(c.oldf('_config'), 'num_download_attempts'), ['C03'])},
+            'Exception': only_propagates},
         loops={0: LoopSpec(invariant=lambda l: {}, iteration_checks=lambda l0, l1, evs: R.retry_clauses(l1.engine, evs, ['C03']),
                         local_types={'last_exception': OptT(ExtT('exception')), 'current_index': Int}),
                1: LoopSpec(invariant=inner_inv, iteration_checks=inner_iteration)},
@@ -244,7 +247,7 @@ def register_legacy_upload(R):
                     extra_args=EXTRA, callback=Any, part_number=Int),
         requires=lambda c: [c.a_part_size > 0, c.a_part_number >= 1],
         checks=one_part_checks, effects=one_part_result,
-        raises={'Exception': lambda c: {}}, raise_when={'Exception': lambda c: None},
+        raises={'Exception': only_propagates}, raise_when={'Exception': lambda c: None},
     )
 
     PARTS_T = ListOfT(RecordT(ETag=ExtT('etag'), PartNumber=Int), name='parts')
@@ -301,7 +304,7 @@ def register_legacy_upload(R):
         f'{MPU}._upload_parts', props=['C01', 'C05', 'C14', 'C15'],
         params=dict(upload_id=ExtT('upload_id'), filename=ExtT('str'), bucket=ExtT('str'), key=ExtT('str'), callback=Any, extra_args=EXTRA),
         setup=up_parts_setup, checks=up_parts_checks, returns=PARTS_T,
-        raises={'Exception': lambda c: {}}, raise_when={'Exception': lambda c: None},
+        raises={'Exception': only_propagates}, raise_when={'Exception': lambda c: None},
         loops={0: LoopSpec(invariant=parts_inv, iteration_checks=parts_iteration, local_types={'parts': PARTS_T})},
     )
     R.external('legacy_executor', map=ExtSpec(returns=lambda eng, st, recv, a, k: ('mapiter', a[0], a[1]), pure=True))
@@ -334,7 +337,7 @@ def register_legacy_front(R):
         return out
 
     R.contract(f'{S3T}._put_object', props=['C01', 'C15'], params=dict(SIMPLE), checks=put_checks,
-               raises={'Exception': lambda c: {}}, raise_when={'Exception': lambda c: None})
+               raises={'Exception': only_propagates}, raise_when={'Exception': lambda c: None})
 
     # ---- _multipart_upload: hands the same arguments to a MultipartUploader built on this transfer's client / config / osutil
     def mpu_checks(c):
@@ -351,7 +354,7 @@ def register_legacy_front(R):
         return out
 
     R.contract(f'{S3T}._multipart_upload', props=['C01', 'C05', 'C15'], params=dict(SIMPLE), checks=mpu_checks,
-               raises={'Exception': lambda c: {}}, raise_when={'Exception': lambda c: None})
+               raises={'Exception': only_propagates}, raise_when={'Exception': lambda c: None})
 
     # ---- upload_file: validation first, multipart exactly when file size >= threshold, arguments passed on
     def uf_checks(c):
@@ -377,7 +380,7 @@ def register_legacy_front(R):
 
     R.contract(f'{S3T}.upload_file', props=['C01', 'C14', 'C15'],
                params=dict(filename=ExtT('str'), bucket=ExtT('str'), key=ExtT('str'), callback=Any, extra_args=OptT(EXTRA)),
-               checks=uf_checks, raises={'Exception': lambda c: {}}, top_level=True)
+               checks=uf_checks, raises={'Exception': only_propagates}, top_level=True)
 
     # ---- _object_size: HeadObject with the user's arguments, size = ContentLength
     def os_checks(c):
@@ -387,7 +390,7 @@ def register_legacy_front(R):
         return {'one_head_object_with_the_users_extra_args': (B(bool(okk) and splat_has(ho[0], c.old.st, c.a_extra_args)), ['C15'])}
 
     cos = R.contracts[f'{S3T}._object_size']
-    cos.checks, cos.raises, cos.props = os_checks, {'Exception': lambda c: {}}, ('C15',)
+    cos.checks, cos.raises, cos.props = os_checks, {'Exception': only_propagates}, ('C15',)
 
     # ---- _do_get_object: one GetObject with the user's arguments; EVERY byte of the body, in order, into the file
     def dgo_inv(l):
@@ -440,7 +443,7 @@ def register_legacy_front(R):
 
     R.contract(f'{S3T}._do_get_object', props=['C02', 'C03', 'C06', 'C15'],
                params=dict(bucket=ExtT('str'), key=ExtT('str'), filename=ExtT('str'), extra_args=EXTRA, callback=OptT(ExtT('legacy_cb'))),
-               setup=dgo_setup, checks=dgo_checks, raises={'Exception': lambda c: {}},
+               setup=dgo_setup, checks=dgo_checks, raises={'Exception': only_propagates},
                raise_when={'Exception': lambda c: None, 'socket.timeout': lambda c: None, 'OSError': lambda c: None},
                loops={0: LoopSpec(invariant=dgo_inv, iteration_checks=dgo_iteration)})
 
@@ -464,7 +467,7 @@ def register_legacy_front(R):
     cgo.setup = lambda eng, st, args, self_val: st.assume(st.obj(st.obj(self_val).fields['_config']).fields['num_download_attempts'] > 0)
     cgo.raises = {'s3transfer.exceptions:RetriesExceededError': lambda c: {'only_after_the_attempt_budget_is_used_up': (B(
         len([e for e in c.trace if e.kind == 'loop']) == 1), ['C03']),
-        **R.budget_clause(c, c.old.f(c.oldf('_config'), 'num_download_attempts'), ['C03'])}, 'Exception': lambda c: {}}
+        **R.budget_clause(c, c.old.f(c.oldf('_config'), 'num_download_attempts'), ['C03'])}, 'Exception': only_propagates}
     cgo.loops = {0: LoopSpec(invariant=lambda l: {}, iteration_checks=go_iteration, local_types={'last_exception': OptT(ExtT('exception'))})}
 
 
@@ -509,7 +512,7 @@ def register_ranged_downloader(R):
         f'{MPD}.download_file', props=['C06', 'C03', 'C02', 'C15'],
         params=dict(bucket=ExtT('str'), key=ExtT('str'), filename=ExtT('str'), object_size=Int, extra_args=EXTRA,
                     callback=OptT(ExtT('legacy_cb'))),
-        checks=dlf_checks, raises={'Exception': lambda c: {}}, raise_when={'Exception': lambda c: None},
+        checks=dlf_checks, raises={'Exception': only_propagates}, raise_when={'Exception': lambda c: None},
         inline_callees=[f'{MPD}._process_future_results'],
     )
 
